@@ -51,6 +51,7 @@ type Loader struct {
 
 	visitedRefs map[string]struct{}
 	visitedPath []string
+	resolving   int // depth of ResolveRefsIn calls in progress
 	backtrack   map[string][]func(value any)
 }
 
@@ -201,6 +202,18 @@ func (loader *Loader) ResolveRefsIn(doc *T, location *url.URL) (err error) {
 	if loader.visitedPathItemRefs == nil {
 		loader.resetVisitedPathItemRefs()
 	}
+
+	// A resolution that fails leaves the references it was working on marked
+	// as being visited. When the outermost call returns with an error, forget
+	// them: the next use of this loader would otherwise skip those references
+	// and report success with their values unresolved.
+	loader.resolving++
+	defer func() {
+		loader.resolving--
+		if loader.resolving == 0 && err != nil {
+			loader.resetVisitedPathItemRefs()
+		}
+	}()
 
 	if loader.docLocations == nil {
 		loader.docLocations = make(map[*T]*url.URL)
